@@ -132,7 +132,57 @@ func c18Consumer(c *Ctx) {
 		return
 	}
 	fi := Info(fn)
-	icall := func(elem VM) Ev { return p.CallWith("partitionConsumer.interceptors", 1, elem) }
+	// "the interceptors are applied to elem": child.interceptors(elem), or that helper written out — a range loop
+	// over conf.Consumer.Interceptors whose body calls elem.safelyApplyInterceptor(…); the loop as a whole is one
+	// application and is represented by the len(...) of its header
+	type writtenOut struct {
+		anchor ssa.Instruction
+		elem   ssa.Value
+	}
+	var loops []writtenOut
+	for _, l := range fi.Loops {
+		var lenCall *ssa.Call
+		for _, in := range l.Head.Instrs {
+			if bo, ok := in.(*ssa.BinOp); ok && bo.Op == token.LSS {
+				if cl, ok := bo.Y.(*ssa.Call); ok {
+					if bi, ok := cl.Call.Value.(*ssa.Builtin); ok && bi.Name() == "len" && FieldLoad("Config.Consumer.Interceptors")(cl.Call.Args[0]) {
+						lenCall = cl
+					}
+				}
+			}
+		}
+		if lenCall == nil {
+			continue
+		}
+		for _, s := range fi.Iteration(l).Find(p.CallTo("ConsumerMessage.safelyApplyInterceptor")) {
+			loops = append(loops, writtenOut{lenCall, callArgs(s)[0]})
+		}
+	}
+	icallAny := func(it Item) bool {
+		if p.CallTo("partitionConsumer.interceptors")(it) {
+			return true
+		}
+		for _, w := range loops {
+			if it.In == w.anchor {
+				return true
+			}
+		}
+		return false
+	}
+	icallArg := func(it Item) ssa.Value {
+		if p.CallTo("partitionConsumer.interceptors")(it) {
+			return callArgs(it)[1]
+		}
+		for _, w := range loops {
+			if it.In == w.anchor {
+				return w.elem
+			}
+		}
+		return nil
+	}
+	icall := func(elem VM) Ev {
+		return func(it Item) bool { return icallAny(it) && elem(icallArg(it)) }
+	}
 	sends := fi.Find(SendOn(FieldLoad("partitionConsumer.messages"), nil))
 	if len(sends) < 2 {
 		c.Unresolved(rule, "sends on child.messages in responseFeeder")
@@ -214,17 +264,17 @@ func c18Consumer(c *Ctx) {
 		// inner (slow-reader) loop: element index = outer index + j
 		outerReg := fi.Iteration(ei.outer)
 		outerElemIC := func(it Item) bool {
-			if !p.CallTo("partitionConsumer.interceptors")(it) {
+			if !icallAny(it) {
 				return false
 			}
-			_, l, ok := rangeElem(fi, callArgs(it)[1])
+			_, l, ok := rangeElem(fi, icallArg(it))
 			return ok && l == ei.outer
 		}
 		innerIC := func(it Item) bool {
-			if !p.CallTo("partitionConsumer.interceptors")(it) {
+			if !icallAny(it) {
 				return false
 			}
-			e2, ok := classify(callArgs(it)[1])
+			e2, ok := classify(icallArg(it))
 			return ok && e2.loop == ei.loop
 		}
 		// does the outer interception precede the inner loop on every path?
